@@ -113,8 +113,12 @@ def models(prop, tier):
     return [m6, m6u, m4f] if quick else [m6, m6u, m5u, m4f, m7]
   if prop == 'C04':
     return [m3d, m4m, gate, gate_s] if quick else [m3d, m4m, gate, gate_s, m4f, m4d]
+  close_s = dict(module='LbBase', cfg='LbBase_closeS.cfg', expect_violation='QuietOK',
+                 what='counterexample generator: __RemoveServer deleting the _servers entry AFTER the subclass hook '
+                      '(PopFirst = FALSE): a leave whose channel Close() raises keeps the entry, the re-join is dropped as a '
+                      'duplicate and a current member is not eligible (leave, join, worker run)')
   if prop == 'C05':
-    return [lb, gate, m4m] if quick else [lb, gate, m4m, m4f]
+    return [lb, close_s, gate, m4m] if quick else [lb, close_s, gate, m4m, m4f]
   raise ValueError(prop)
 
 
@@ -236,6 +240,14 @@ def _drive(script):
     raised = 0
     s_eff = set()         # endpoints whose join has been processed (observable fallback for U)
     cur_chan = {}         # eid -> latest channel created
+    cfail = {}            # cid -> set of k: the k-th Close() of that channel raises (after closing)
+    cfail_ep = {}
+    ep_closes = {}
+    cfail_all = bool(script.get('cfail_all'))
+  for _cid, _k in script.get('cfail', []):
+    H.cfail.setdefault(int(_cid), set()).add(int(_k))
+  for _eid, _k in script.get('cfail_ep', []):     # the k-th Close() over all channels of an endpoint raises
+    H.cfail_ep.setdefault(int(_eid), set()).add(int(_k))
 
   def emit(e):
     ev.append(e)
@@ -372,6 +384,11 @@ def _drive(script):
       self.closes += 1
       self._st = ChannelState.Closed
       self.open_ar = None
+      H.ep_closes[self.eid] = H.ep_closes.get(self.eid, 0) + 1
+      if H.cfail_all or self.closes in H.cfail.get(self.cid, ()) or H.ep_closes[self.eid] in H.cfail_ep.get(self.eid, ()):
+        # the channel is closed, but its teardown raises into the balancer (socket error on a dead peer)
+        emit({'e': 'CloseSeen', 'n': self.cid, 'x': 1})
+        raise OSError(107, 'Transport endpoint is not connected')
       emit({'e': 'CloseSeen', 'n': self.cid})
 
     def AsyncProcessRequest(self, sink_stack, msg, stream, headers):
@@ -947,6 +964,217 @@ def _family_c03():
   return out
 
 
+AP_FIXED = {'min_load': -1, 'max_load': 10 ** 6, 'jitter_min': 0, 'jitter_max': 0}   # no load-based resizing, no jitter
+
+
+def _family_aperture_down():
+  """A member of the aperture goes non-Open while idle or loaded; the dispatch that finds it at the
+  heap root marks it down and the aperture pulls a replacement from the idle set IN THE MIDDLE of that
+  dispatch (ApertureBalancerSink._OnNodeDown -> _TryExpandAperture -> _AddSink).  Enumerated: aperture
+  size m in {2, 3, 4} (1-2 idle endpoints) x load pattern before the fault (k uncompleted dispatches,
+  one of them optionally completed: loads differ by one) x the member that fails (new state Closed /
+  Busy alternating) x when the replacement's Open() completes (at once; after the j-th following
+  dispatch, j = 0, 1, 2; from a spawned greenlet after one loop step); for m in {2, 3} also a second
+  member (possibly the replacement) failing after the first was replaced.  Load-based resizing and
+  jitter are configured off, so the only aperture changes are the replacements."""
+  out = []
+
+  def phase(ops, m, victim, st, mode, ndisp):
+    ops.append(['pol', 'manual' if mode.startswith('od') else mode])
+    ops.append(['chan_n', victim, st])
+    for i in range(ndisp):
+      ops.append(['disp', 0, 0])
+      if mode == 'auto':
+        ops.append(['step', 1])
+      elif mode.startswith('od') and i >= int(mode[2]):
+        ops.append(['opendone', 0, 1, 0])
+
+  def case(m, n, ops, tag):
+    ap = dict(AP_FIXED)
+    ap.update(min_size=m, max_size=n if tag % 2 else 2 ** 31)
+    out.append({'kind': 'aperture', 's0': list(range(1, n + 1)), 'rseed': tag, 'pol': 'sync',
+                'shuffle_id': True, 'load': {'mode': 'nonblock'}, 'ap': ap, 'ops': ops})
+
+  modes = ('sync', 'od0', 'od1', 'od2', 'auto')
+  for m in (2, 3, 4):
+    pats = [(k, c) for k in range(0, m + 2) for c in [0] + list(range(1, min(k, m) + 1))]
+    for pi, (k, c) in enumerate(pats):
+      for victim in range(1, m + 1):
+        for mode in modes:
+          ops = [['open'], ['settle']] + [['disp', 0, 0]] * k
+          if c:
+            ops.append(['comp_n', c, 'reply', 0])
+          phase(ops, m, victim, 4 if (pi + victim) % 2 else 3, mode, m + 4)
+          ops += [['chan_n', victim, 2], ['disp', 0, 0], ['comp', 0, 'reply', 0], ['disp', 0, 0]]
+          case(m, m + 1 + (pi + victim) % 2, ops, k + 7 * victim)
+  for m in (2, 3):
+    for k in (0, m):
+      for v1 in range(1, m + 1):
+        for v2 in range(1, m + 2):
+          if v2 == v1:
+            continue
+          for mode in modes:
+            ops = [['open'], ['settle']] + [['disp', 0, 0]] * k
+            phase(ops, m, v1, 4, 'sync', 1 if v2 <= m else 2)
+            phase(ops, m, v2, 4 if (v1 + v2) % 2 else 3, mode, m + 5)
+            case(m, m + 2, ops, k + 7 * v1 + 3 * v2)
+  return out
+
+
+def _gen_aperture_down(rng, prop):
+  """Random histories on the real aperture balancer with min_size 2-3 and several idle endpoints:
+  channels of aperture members go Closed / Busy / Idle and come back, Open() results of the
+  replacements complete at random points (policy switched between sync / manual / auto as channels
+  are created), requests stay uncompleted so that loads differ, members leave and re-join."""
+  m = rng.choice([2, 2, 3])
+  n = m + rng.randint(1, 3)
+  ap = {'min_size': m, 'max_size': rng.choice([n, n + 1, 2 ** 31])}
+  if rng.random() < 0.65:
+    ap.update(AP_FIXED)
+  else:
+    ap.update(min_load=rng.choice([0.3, 0.5]), max_load=rng.choice([1.5, 2.0, 3.0]),
+              jitter_min=rng.choice([0, 0, 2]), jitter_max=4)
+  sc = {'kind': 'aperture', 's0': list(range(1, n + 1)), 'rseed': rng.randint(0, 10 ** 6),
+        'pol': rng.choice(['sync', 'sync', 'auto']), 'load': {'mode': 'nonblock'}, 'ap': ap}
+  ops = [['open'], ['settle']]
+  for _ in range(rng.randint(0, m + 1)):
+    ops.append(['disp', 1 if rng.random() < 0.5 else 0, 0])
+  if rng.random() < 0.4:
+    ops.append(['comp', rng.randrange(8), 'reply', 0])
+  ops.append(['pol', rng.choice(['sync', 'sync', 'manual', 'manual', 'auto'])])
+  w = dict(disp=40, comp=14, chan=16, opendone=9, pol=3, step=5, settle=2, leave=3, join=3, adv=1) if prop != 'C04' else \
+      dict(disp=34, comp=22, chan=14, opendone=8, pol=3, step=5, settle=2, leave=6, join=4, adv=1, late=2)
+  keys = sorted(w)
+  tot = sum(w.values())
+  kinds = ['reply', 'reply', 'error', 'timeout', 'fault']
+  for _ in range(rng.randint(10, 30)):
+    x = rng.randrange(tot)
+    for kk in keys:
+      if x < w[kk]:
+        break
+      x -= w[kk]
+    if kk == 'disp':
+      ops.append(['disp', 1 if rng.random() < 0.5 else 0, 0])
+    elif kk == 'comp':
+      ops.append(['comp', rng.randrange(64), rng.choice(kinds), rng.randint(1, 5) if rng.random() < 0.5 else 0])
+    elif kk == 'chan':
+      ops.append(['chan', rng.randrange(64), rng.choice([4, 4, 4, 3, 2, 2, 1])])
+    elif kk == 'opendone':
+      ops.append(['opendone', rng.randrange(8), 1 if rng.random() < 0.85 else 0, rng.choice([0, 0, 1, -1])])
+    elif kk == 'pol':
+      ops.append(['pol', rng.choice(['sync', 'manual', 'auto'])])
+    elif kk == 'step':
+      ops.append(['step', rng.choice([1, 1, 2])])
+    elif kk == 'settle':
+      ops.append(['settle'])
+    elif kk == 'leave':
+      ops.append(['leave', rng.randint(1, n + 1), rng.choice([-1, -1, 0, 1])])
+    elif kk == 'join':
+      ops.append(['join', rng.randint(1, n + 1), rng.choice([-1, -1, 0, 1])])
+    elif kk == 'late':
+      ops.append(['late', rng.randrange(64)])
+    elif kk == 'adv':
+      ops.append(['adv', rng.choice([100, 1000, 2500])])
+  sc['ops'] = ops
+  return sc
+
+
+def _family_closefail():
+  """A member leaves and the Close() of its channel raises (the channel is closed, its teardown fails);
+  the provider's notification worker logs the exception and carries on; the same endpoint re-joins.
+  Enumerated: heap / aperture (every member active; one member held idle) x the member x its condition
+  when it leaves (idle: closed at once; marked down; loaded: closed when its request completes, the
+  exception then goes to the completing caller; down and loaded) x what follows (re-join, the others
+  leave, a request; another member leaves first; duplicate join, clean leave, third join; the
+  re-joined member's channel fails to close as well)."""
+  out = []
+  for kind, minsz in (('heap', 0), ('aperture', 3), ('aperture', 2)):
+    for c in (1, 2, 3):
+      others = [e for e in (1, 2, 3) if e != c]
+      for cond in ('idle', 'down', 'loaded', 'downloaded'):
+        for tail in range(4):
+          ops = [['open'], ['settle']]
+          if cond == 'loaded':
+            ops += [['disp', 1, 0]] * 3
+          elif cond == 'down':
+            ops += [['chan_n', c, 4], ['disp', 1, 0]]
+          elif cond == 'downloaded':
+            # every channel down: the requests go to members marked down; then the others come back
+            ops += [['chan_n', e, 4] for e in (1, 2, 3)] + [['disp', 1, 0]] * 3
+            ops += [['chan_n', e, 2] for e in others] + [['disp', 1, 0]]
+          ops.append(['leave', c, -1])
+          if cond in ('loaded', 'downloaded'):
+            ops += [['comp_n', c, 'reply', 0], ['settle']]
+          if tail == 0:
+            ops += [['join', c, -1], ['leave', others[0], -1], ['leave', others[1], -1], ['disp', 0, 0]]
+          elif tail == 1:
+            ops += [['leave', others[0], -1], ['join', c, -1], ['disp', 0, 0], ['leave', others[1], -1], ['disp', 0, 0]]
+          elif tail == 2:
+            ops += [['join', c, -1], ['join', c, -1], ['leave', c, -1], ['join', c, -1], ['disp', 0, 0]]
+          else:
+            ops += [['join', c, -1], ['leave', c, -1], ['join', c, -1], ['leave', others[0], -1],
+                    ['leave', others[1], -1], ['disp', 0, 0]]
+          ops += [['settle'], ['probe']]
+          fail = [[c, 1]] + ([[c, 2]] if tail == 3 else [])
+          sc = {'kind': kind, 's0': [1, 2, 3], 'rseed': 1, 'pol': 'sync', 'shuffle_id': True,
+                'load': {'mode': 'nonblock'}, 'cfail_ep': fail, 'ops': ops}
+          if kind == 'aperture':
+            ap = dict(AP_FIXED)
+            ap.update(min_size=minsz, max_size=3)
+            sc['ap'] = ap
+          out.append(sc)
+  return out
+
+
+def _gen_closefail(rng, kind):
+  """Random join / leave / traffic histories in which some channels raise from their 1st (or 2nd)
+  Close(): leaves of idle, down and loaded members, re-joins, further leaves and dispatches."""
+  n = rng.choice([1, 2, 3, 3, 4])
+  names = list(range(1, n + 2))
+  sc = {'kind': kind, 's0': list(range(1, n + 1)), 'rseed': rng.randint(0, 10 ** 6),
+        'pol': rng.choice(['sync', 'sync', 'auto', 'manual']), 'load': {'mode': 'nonblock'}}
+  if kind == 'aperture':
+    ap = {'min_size': rng.choice([1, 2, 3, n]), 'max_size': rng.choice([n, 2 ** 31])}
+    ap['max_size'] = max(ap['max_size'], ap['min_size'])
+    if rng.random() < 0.6:
+      ap.update(AP_FIXED)
+    else:
+      ap.update(min_load=0.5, max_load=2.0, jitter_min=0, jitter_max=0)
+    sc['ap'] = ap
+  if rng.random() < 0.25:
+    sc['cfail_all'] = 1
+  else:
+    sc['cfail'] = [[cid, 1 if rng.random() < 0.85 else 2] for cid in range(1, n + 8) if rng.random() < 0.5]
+  ops = [['open'], ['settle']]
+  w = dict(disp=20, comp=16, chan=7, leave=25, join=25, settle=5, opendone=2)
+  keys = sorted(w)
+  tot = sum(w.values())
+  for _ in range(rng.randint(8, 28)):
+    x = rng.randrange(tot)
+    for kk in keys:
+      if x < w[kk]:
+        break
+      x -= w[kk]
+    if kk == 'disp':
+      ops.append(['disp', 1 if rng.random() < 0.7 else 0, 0])
+    elif kk == 'comp':
+      ops.append(['comp', rng.randrange(64), rng.choice(['reply', 'reply', 'error', 'timeout']), 0])
+    elif kk == 'chan':
+      ops.append(['chan', rng.randrange(64), rng.choice([4, 4, 2, 3])])
+    elif kk == 'leave':
+      ops.append(['leave', rng.choice(names), rng.choice([-1, -1, -1, 0, 1])])
+    elif kk == 'join':
+      ops.append(['join', rng.choice(names), rng.choice([-1, -1, -1, 0, 1])])
+    elif kk == 'settle':
+      ops.append(['settle'])
+    elif kk == 'opendone':
+      ops.append(['opendone', rng.randrange(8), 1, -1])
+  if rng.random() < 0.5:
+    ops.append(['probe'])
+  sc['ops'] = ops
+  return sc
+
+
 def _family_c05(kinds=('heap', 'aperture')):
   """Every history of <= 2 notifications over 2 names while GetServers blocks, x <= 1 after the
   release, x initial set x early/late snapshot: the init-gate space, enumerated."""
@@ -1081,6 +1309,10 @@ def cases(prop, tier, seed):
     n = 900 if quick else 8000
     for i in range(n):
       out.append(_gen_traffic(rng, 'heap' if i % 3 else 'aperture', prop))
+    fam = _family_aperture_down()
+    out.extend(fam if not quick else fam[int(seed) % 3::3])
+    for i in range(150 if quick else 2000):
+      out.append(_gen_aperture_down(rng, prop))
   elif prop == 'C04':
     out.extend(_family_small())
     out.extend(_family_parked())
@@ -1089,6 +1321,8 @@ def cases(prop, tier, seed):
     n = 1100 if quick else 8000
     for i in range(n):
       out.append(_gen_traffic(rng, 'heap' if i % 3 else 'aperture', prop))
+    for i in range(80 if quick else 1000):
+      out.append(_gen_aperture_down(rng, prop))
   else:
     n = 600 if quick else 4000
     for i in range(n):
@@ -1097,6 +1331,10 @@ def cases(prop, tier, seed):
       out.append(_gen_gate(rng, 'heap' if i % 2 else 'aperture'))
     fam = _family_c05()
     out.extend(fam[int(seed) % 3::3] if quick else fam)
+    fam = _family_closefail()
+    out.extend(fam[int(seed) % 2::2] if quick else fam)
+    for i in range(200 if quick else 2500):
+      out.append(_gen_closefail(rng, 'heap' if i % 2 else 'aperture'))
   return out
 
 
@@ -1258,8 +1496,23 @@ def _lb_script(beh):
       expect.append(None)
     prev = st
   script = {'kind': 'heap', 's0': sorted(mv(e) for e in st0['T']), 'rseed': 0, 'pol': 'auto', 'shuffle_id': True,
-            'load': {'mode': 'late'}, 'ops': ops, 'impl': True}
+            'load': {'mode': 'late'}, 'ops': ops, 'impl': True,
+            'cfail': [[n, 1] for n in _bad_close('LbBase_sim.cfg')]}      # the model's BadClose: those Close() calls raise
   return script, expect
+
+
+_BAD_CLOSE = {}
+
+
+def _bad_close(cfg):
+  """The constant BadClose of an LbBase cfg (node objects, in creation order, whose Close() raises)."""
+  if cfg not in _BAD_CLOSE:
+    import os
+    import re
+    txt = open(os.path.join(tlc.SPECS, cfg)).read()
+    m = re.search(r'BadClose\s*=\s*\{([^}]*)\}', txt)
+    _BAD_CLOSE[cfg] = sorted(int(x) for x in m.group(1).replace(' ', '').split(',') if x) if m else []
+  return _BAD_CLOSE[cfg]
 
 
 def _replay_case(job):
